@@ -248,15 +248,13 @@ TraceSpec == TraceInit /\ [][TraceNext]_tvars
 \* on a stalled machine is outside what the attester is specified for: Attester.tla, EnvWindow)
 NoDoubleSignEnv == envViol \/ NoDoubleSign
 
-(* S3 / S4 on traces.  The one way the composition can break them is the scheduler's cancel-on-a- *)
-(* fired-timer (state xrace, see Vouch.tla and docs/Vouch.md: recorded as an open finding under   *)
-(* C03): a trace in which that happened by itself is not judged on them here (it happens within  *)
-(* microseconds and never reproduces); Trace_Vouch_strict.cfg judges it - the directed schedule   *)
-(* that holds the job goroutine at that point must be rejected there as long as the finding is    *)
-(* open.                                                                                         *)
-Raced == \E x \in runs : x.canc
-SlotOnceX == Raced \/ SlotOnce
-PendingExactX == Raced \/ PendingExact
+(* S3 / S4 on traces are judged as they stand (SlotOnce, CancelledNeverRuns, PendingExact).  The  *)
+(* configuration keeps CancelRace = TRUE only as the envelope that EXPLAINS a run of a withdrawn  *)
+(* job (state xrace: the scheduler before repair 7cb52d1), so that such a trace is rejected by    *)
+(* the invariant it breaks - with the line after which it is false - rather than as "no action    *)
+(* explains this line".  The directed schedule that holds a job goroutine right after its timer   *)
+(* fired while a refresh cancels and re-schedules its name is accepted only if the withdrawn job  *)
+(* does not run.                                                                                 *)
 
 HWM == UpdateHWM(l)
 TraceAccepted == TraceAcceptedUpTo
